@@ -516,6 +516,49 @@ func check(args []string) int {
 		}
 	}
 
+	// 2b. free-running race-detector pass (C09): the same operation bodies on real goroutines in a -race build.
+	if spec.Race {
+		rb := filepath.Join(bi.Dir, "harness.race")
+		logBase := filepath.Join(bi.Dir, fmt.Sprintf("race-%d", os.Getpid()))
+		rres, rprobs := runWorkers(rb, prop+"race", tier, seed, 4, deadline, 1, hard, []string{"GORACE=halt_on_error=0 exitcode=0 log_path=" + logBase, "GOMAXPROCS=8"})
+		races := 0
+		var firstReport string
+		logs, _ := filepath.Glob(logBase + ".*")
+		for _, lf := range logs {
+			b, _ := os.ReadFile(lf)
+			n := strings.Count(string(b), "WARNING: DATA RACE")
+			if n > 0 && firstReport == "" {
+				firstReport = string(b)
+				if len(firstReport) > 3000 {
+					firstReport = firstReport[:3000]
+				}
+			}
+			races += n
+			os.Remove(lf)
+		}
+		ran := int64(0)
+		for i, r := range rres {
+			if r == nil {
+				plainNote += fmt.Sprintf("race shard %d: %s; ", i, firstLine(rprobs[i]))
+				if rprobs[i] != "watchdog" {
+					agg.viol = append(agg.viol, proto.Violation{Property: prop, Clause: "concurrent operations do not crash", Kind: "process-death",
+						Sig: "race-pass-crash", Input: map[string]any{"shard": i, "build": "race"}, Observed: rprobs[i], Build: "race"})
+					agg.violCount++
+				}
+				continue
+			}
+			ran += r.Cases
+		}
+		agg.counters["race_pass_scenarios"] = ran
+		agg.counters["race_reports"] = int64(races)
+		if races > 0 {
+			agg.viol = append(agg.viol, proto.Violation{Property: prop, Clause: "concurrent use of one compiled bundle is free of data races", Kind: "race",
+				Sig: "data-race:" + raceSite(firstReport), Input: map[string]any{"build": "race", "scenarios": "all ordered pairs of operations, 3 goroutines, cold start"},
+				Expected: "no report from the race detector", Observed: firstReport, Build: "race"})
+			agg.violCount++
+		}
+	}
+
 	// 3. known findings.
 	known, _ := loadKnown()
 	knownBySig := map[string]knownFinding{}
@@ -610,6 +653,20 @@ func check(args []string) int {
 	fmt.Printf("%s %s: states=%d transitions=%d validated_on_plain=%d nontrivial=%d outcomes=%d failing=%d known=%d exhaustive=%v wall=%.1fs\n",
 		prop, tier, agg.states, agg.cases, validated, agg.nontrivial, agg.outcomes, agg.violCount, len(printedKnown), agg.exhaustive, time.Since(start).Seconds())
 	return exit
+}
+
+// raceSite extracts the first frame inside robfig/soy from a race report.
+func raceSite(report string) string {
+	for _, l := range strings.Split(report, "\n") {
+		l = strings.TrimSpace(l)
+		if strings.HasPrefix(l, "github.com/robfig/soy/") {
+			if i := strings.IndexByte(l, '('); i > 0 {
+				l = l[:i]
+			}
+			return strings.TrimPrefix(l, "github.com/robfig/soy/")
+		}
+	}
+	return "?"
 }
 
 func firstLine(s string) string {
